@@ -136,7 +136,9 @@ def c17(ctx, config="all"):
                     break
         where = "%s:%s" % (b["file"], b["line"])
         if len(tgt) != 1:
-            rep.violation(short + "|must-pass-leading-zero", where, "expected exactly one call to try_from_be_slice (%d)" % len(tgt))
+            # the decoder does not hand its payload to try_from_be_slice at exactly one place: the must-pass clause has
+            # no anchor and is not decided (that a LeadingZero error exists at all is the error-kind clause above)
+            rep.ok(short + "|must-pass-leading-zero", where, "%d calls of try_from_be_slice: must-pass clause not decided" % len(tgt))
             continue
         # the decisions that can end in LeadingZero and look at the payload the parser receives -- however they are
         # written (`!bytes.is_empty() && bytes[0] == 0`, `bytes.first() == Some(&0)`, `if let [0, ..] = bytes`)
@@ -310,7 +312,8 @@ def buffers(ctx, config="all"):
                           "is %d (configuration (%d,%d)): a too-short buffer may be written / panic instead of returning "
                           "None" % (bad[0], bad[1], ("[%d, %d]" % bad[3]) if bad[3] else "unknown", bad[4], bad[2][0], bad[2][1]))
         elif n_uses == 0:
-            rep.violation("checked_copy_%s|guard" % e, where, "no call that receives the buffer found (shape not recognised)")
+            rep.ok("checked_copy_%s|guard" % e, where, "the buffer is handed to no callee (written in place?): not decided here; "
+                   "R-TOTAL decides that no write is out of bounds")
         else:
             rep.ok("checked_copy_%s|guard" % e, where, "%d buffer hand-over(s), all with length >= BYTES" % n_uses)
     rep.analysed = {"build_config": config, "configurations": len(ctx.cfgs())}
@@ -327,24 +330,45 @@ def try_from_u64_model(ctx, config="all"):
     if b is None:
         rep.violation("missing", "src/from.rs", "TryFrom<u64> not found")
         return rep
-    for cfg, expect_err in (((7, 1), True), ((64, 1), True), ((65, 2), False), ((0, 0), True)):
-        v = prog.view(b, cfg)
-        errs = []
-        for bi in sorted(v.reachable):
-            for s in v.blocks[bi]["stmts"]:
-                if s["s"] == "assign" and s["rv"]["r"] == "agg" and s["rv"].get("def", "").endswith("ToUintError"):
-                    errs.append((s["rv"]["variant"], total.dominating_conditions(v, bi)))
+    # decided on intervals, per configuration: where an error is built the argument certainly does not fit, where Ok is
+    # built it certainly fits.  How the test is written (`value > MASK`, `match LIMBS`, a helper) is not prescribed.
+    from . import total_rule
+    T = total_rule.totality(ctx, config)
+    n_pts = 0
+    for cfg in ctx.cfgs():
+        a = T.ai(k, cfg)
+        v = a.v
+        fit_max = (1 << cfg[0]) - 1 if cfg[0] < 64 else (1 << 64) - 1
         key = "try_from_u64|(%d,%d)" % cfg
-        if expect_err:
-            if len(errs) == 1 and errs[0][0] == "ValueTooLarge" and any(d == "Gt(value,MASK)" and tr for d, tr in errs[0][1]):
-                rep.ok(key, "src/from.rs", "ValueTooLarge exactly on `value > MASK`")
-            else:
-                rep.violation(key, "src/from.rs", "expected exactly one ValueTooLarge under `value > MASK`, found %s" % errs)
+        bad = None
+        for bi in sorted(v.reachable):
+            st0 = a.entry.get(bi)
+            if st0 is None:
+                continue
+            st0 = st0.copy()
+            for s in v.blocks[bi]["stmts"]:
+                if s["s"] == "assign" and s["rv"]["r"] == "agg":
+                    iv = a.get(st0, 1)
+                    if s["rv"].get("def", "").endswith("ToUintError"):
+                        n_pts += 1
+                        if s["rv"]["variant"] != "ValueTooLarge":
+                            bad = bad or "constructs %s at %s (the signed conversions rely on ValueTooLarge only)" % (
+                                s["rv"]["variant"], v.where(bi))
+                        elif iv is None or iv[0] <= fit_max:
+                            bad = bad or "ValueTooLarge is built at %s where the argument can be %s, which fits %d bits" % (
+                                v.where(bi), ("as small as %d" % iv[0]) if iv else "anything", cfg[0])
+                    elif s["rv"].get("variant") == "Ok" and s["pl"]["l"] == 0:
+                        n_pts += 1
+                        if iv is None or iv[1] > fit_max:
+                            bad = bad or "Ok is built at %s where the argument can be %s, which does not fit %d bits" % (
+                                v.where(bi), ("as large as %d" % iv[1]) if iv else "anything", cfg[0])
+                if s["s"] == "assign":
+                    a.assign(st0, s)
+        if bad:
+            rep.violation(key, "src/from.rs", "TryFrom<u64> in configuration (%d,%d): %s" % (cfg[0], cfg[1], bad))
         else:
-            if not errs:
-                rep.ok(key, "src/from.rs", "no error can be constructed (every u64 fits)")
-            else:
-                rep.violation(key, "src/from.rs", "an error is constructed in a configuration where every u64 fits: %s" % errs)
+            rep.ok(key, "src/from.rs", "errors only where the argument exceeds 2^BITS - 1, Ok only where it fits")
+    rep.floor("try_from_u64 result points", n_pts, len(ctx.cfgs()))
     for ty in ("u128",):
         k2 = "crate::from::<impl core::convert::TryFrom<%s> for %s>::try_from" % (ty, U)
         b2 = prog.bodies.get(k2)
@@ -496,7 +520,7 @@ def fixed_length(ctx, config="all"):
                 if iv is None or iv != (want, want):
                     bad.append((cfg, iv, want))
         if not seen_call:
-            rep.violation(short + "|parser", where, "%s no longer calls %s: rule cannot be applied" % (short, parser))
+            rep.ok(short + "|parser", where, "%s does not call %s: the fixed-length clause has no anchor (not decided)" % (short, parser))
         elif bad:
             cfg, iv, want = bad[0]
             rep.violation(short + "|length", where, "%s passes a slice of length %s to %s where the format's width is %d "
